@@ -46,6 +46,84 @@ Definition date_text (us : Z) : ares str :=
   if (w <? C.MIN_US + C.US_DAY) || (C.MAX_US - C.US_DAY <? w) then AOracle
   else match C.iso_format utc utc w with C.DOk s => ARes s | C.DExc => AErr | C.DFuel => AOracle end.
 
+(* ====================================================================== repr(float), shortest round-trip digits *)
+(* CPython's repr(float) (format code 'r', dtoa mode 0): the SHORTEST digit string that reads back (correctly rounded,
+   half-even: Model/Num.v dec_to_sf) as the same double and, among those, the one closest to the exact value.
+   [short_digits] returns (digits d, decimal exponent k) with d * 10^k that text, d without trailing zeros (an exact tie between the two
+   candidates goes to the even digit, as dtoa does).  Arith.num_to_str prints the floats of at most 15 significant digits in
+   positional range; this printer serves the others. *)
+Definition ge_pow10 (num den E : Z) : bool :=           (* num / den >= 10^E *)
+  if 0 <=? E then 10 ^ E * den <=? num else den <=? num * 10 ^ (- E).
+
+Definition dec_exponent (m : positive) (e : Z) : Z :=   (* E with 10^E <= m * 2^e < 10^(E+1) *)
+  let num := if 0 <=? e then Zpos m * 2 ^ e else Zpos m in
+  let den := if 0 <=? e then 1 else 2 ^ (- e) in
+  let E0 := (Z.log2 (Zpos m) + e) * 30103 / 100000 in
+  let E1 := if ge_pow10 num den (E0 + 2) then E0 + 2 else if ge_pow10 num den (E0 + 1) then E0 + 1
+            else if ge_pow10 num den E0 then E0 else if ge_pow10 num den (E0 - 1) then E0 - 1 else E0 - 2 in
+  E1.
+
+Fixpoint strip_zeros_Z (fuel : nat) (d k : Z) : Z * Z :=
+  match fuel with
+  | O => (d, k)
+  | S f => if (d mod 10 =? 0) && negb (d =? 0) then strip_zeros_Z f (d / 10) (k + 1) else (d, k)
+  end.
+
+Fixpoint short_digits_from (todo : nat) (n : Z) (m : positive) (e : Z) (E : Z) : option (Z * Z) :=
+  match todo with
+  | O => None
+  | S todo' =>
+    let k := E - (n - 1) in
+    let num := (if 0 <=? e then Zpos m * 2 ^ e else Zpos m) * (if 0 <=? k then 1 else 10 ^ (- k)) in
+    let den := (if 0 <=? e then 1 else 2 ^ (- e)) * (if 0 <=? k then 10 ^ k else 1) in
+    let lo := num / den in
+    let r := num mod den in
+    let me := S754_finite false m e in
+    let ok_lo := sf_eqb (dec_to_sf false lo k) me in
+    let ok_hi := negb (r =? 0) && sf_eqb (dec_to_sf false (lo + 1) k) me in
+    if ok_lo && ok_hi then
+      (if 2 * r <? den then Some (strip_zeros_Z 20 lo k) else if den <? 2 * r then Some (strip_zeros_Z 20 (lo + 1) k)
+       else Some (strip_zeros_Z 20 (if Z.even lo then lo else lo + 1) k))          (* exact tie: dtoa rounds half-even *)
+    else if ok_lo then Some (strip_zeros_Z 20 lo k)
+    else if ok_hi then Some (strip_zeros_Z 20 (lo + 1) k)
+    else short_digits_from todo' (n + 1) m e E
+  end.
+Definition short_digits (m : positive) (e : Z) : option (Z * Z) := short_digits_from 17 1 m e (dec_exponent m e).
+
+(* the layout of repr: positional for 1e-4 <= |x| < 1e16, else d[.ddd]e[+-]XX *)
+Definition repr_layout (neg : bool) (d k : Z) : str :=
+  let ds := Z_to_str d in
+  let n := Z.of_nat (length ds) in
+  let decpt := n + k in
+  let body :=
+    if (decpt <=? -4) || (16 <? decpt) then
+      let ex := decpt - 1 in
+      let exd := Z_to_str (Z.abs ex) in
+      firstn 1 ds ++ (match skipn 1 ds with [] => [] | rest => 46%N :: rest end)
+      ++ [101%N; if ex <? 0 then 45%N else 43%N] ++ (match exd with [_] => 48%N :: exd | _ => exd end)
+    else if decpt <=? 0 then [48%N; 46%N] ++ repeat 48%N (Z.to_nat (- decpt)) ++ ds
+    else if n <=? decpt then ds ++ repeat 48%N (Z.to_nat (decpt - n)) ++ [46%N; 48%N]
+    else firstn (Z.to_nat decpt) ds ++ [46%N] ++ skipn (Z.to_nat decpt) ds in
+  (if neg then [45%N] else []) ++ body.
+
+(* repr(x) for a finite non-zero double *)
+Definition repr_float (f : flt) : ares str :=
+  match f with
+  | S754_finite s m e =>
+    match short_digits m e with
+    | Some (d, k) => ARes (repr_layout s d k)
+    | None => AOracle
+    end
+  | _ => AOracle
+  end.
+
+(* value_string(number): Arith.num_to_str where it answers, else R_NUMBER_CLEANUP.sub('', repr(x)) *)
+Definition num_text_full (n : num) : ares str :=
+  match num_to_str n with
+  | AOracle => match n with NFlt f => match repr_float f with ARes s => ARes (T.cleanup s) | r => r end | NInt _ => AOracle end
+  | r => r
+  end.
+
 (* ====================================================================== values -> JSON trees *)
 Inductive pj (A : Type) := PJOk (a : A) | PJRaise | PJOracle.
 Arguments PJOk {A} a.
@@ -57,9 +135,10 @@ Arguments PJOracle {A}.
 Definition float_token (s : str) : J.jnum :=
   let '(neg, t) := match s with 45%N :: t => (true, t) | _ => (false, s) end in
   let '(ip, r) := J.span_dig t in
-  match r with
-  | 46%N :: fr => J.JN neg ip (Some fr) None
-  | _ => J.JN neg ip (Some [48%N]) None
+  let '(fr, r2) := match r with 46%N :: r1 => let '(fd, r2) := J.span_dig r1 in (Some fd, r2) | _ => (None, r) end in
+  match r2 with
+  | 101%N :: sg :: ds => J.JN neg ip fr (Some (if (sg =? 45)%N then J.ESMinus else J.ESPlus, ds))
+  | _ => J.JN neg ip (match fr with Some fd => Some fd | None => Some [48%N] end) None
   end.
 
 Definition long_int_digits : nat := 4200.     (* CPython refuses int <-> str beyond 4300 digits: near the limit the model declines *)
@@ -71,7 +150,7 @@ Definition num_json (n : num) : pj J.jvalue :=
     if Nat.ltb long_int_digits (length ds) then PJOracle else PJOk (J.JNum (J.JN (z <? 0) ds None None))
   | NFlt f =>
     if sf_is_finite f then
-      match num_to_str n with
+      match num_text_full n with
       | ARes s => PJOk (J.JNum (float_token s))
       | AErr => PJRaise
       | AOracle => PJOracle
@@ -149,6 +228,7 @@ Definition vstring_full (arrs : arrs_t) (objs : objs_t) (v : value) : ares str :
   match v with
   | VDate us => date_text us
   | VArr _ | VObj _ => value_json arrs objs v None
+  | VNum n => num_text_full n
   | _ => vstring v
   end.
 
@@ -393,11 +473,12 @@ Definition more_names : list str :=
    U "datetimeSecond"; U "datetimeMillisecond"; U "datetimeISOFormat"; U "datetimeISOParse";
    U "arrayJoin"; U "stringLower"; U "stringUpper"; U "systemIs"].
 
-(* stringNew / systemLog / systemLogDebug of a container or a datetime: LibCore's [vstring] declines these three types;
-   here the JSON / ISO text is produced (same argument handling as LibCore for a single argument) *)
+(* stringNew / systemLog / systemLogDebug of a container, a datetime or a float: LibCore's [vstring] declines the first two and the
+   floats of more than 15 significant digits; here the JSON / ISO / repr text is produced (same argument handling as LibCore for a
+   single argument) *)
 Definition text_override (name : str) (args : list value) : bool :=
   (op_is name "stringNew" || op_is name "systemLog" || op_is name "systemLogDebug") &&
-  match args with [VArr _] | [VObj _] | [VDate _] => true | _ => false end.
+  match args with [VArr _] | [VObj _] | [VDate _] | [VNum (NFlt _)] => true | _ => false end.
 
 Definition libmore_pure (name : str) (args : list value) (arrs : arrs_t) (objs : objs_t) : pres :=
   if op_is name "stringNew" then
